@@ -363,7 +363,7 @@ type (
 	TokFlag   bool
 	TokList   []uint16
 	TokBytes  []byte
-	TokMap    map[uint8]uint16
+	TokMap    map[uint64]uint16
 	TokStruct struct {
 		A uint8 `serix:""`
 	}
